@@ -43,9 +43,9 @@ PROPS = {
     'C09': dict(k2=[('pair', ALL)], k1=[], direct=['pair']),
     'C10': dict(k2=[('conv', {'res', 'holder', 'c'})], k1=[]),
     'C11': dict(k2=[('data', {'res', 'holder'})], k1=[]),
-    'C12': dict(k2=[('guards', {'res'}), ('around', {'res'}), ('walk', {'res'})], k1=[], k4=True),
+    'C12': dict(names=True, k2=[('guards', {'res'}), ('around', {'res'}), ('walk', {'res'})], k1=[], k4=True),
     'C13': dict(k2=[], k1=['verdict', 'mutants'], k3=['reject']),
-    'C14': dict(k2=[], k1=['verdict', 'struct'], k3=['compile']),
+    'C14': dict(names=True, k2=[], k1=['verdict', 'struct'], k3=['compile']),
     'C15': dict(k1s=True, k2=[('async', ALL)], k1=[], direct=['twin'], k3=['send']),
     'C16': dict(k1s=True, k2=[('walk', {'c', 'p', 'trace'}), ('refuse', {'c', 'p', 'trace'}), ('conv', {'c', 'p'})], k1=[]),
     'C17': dict(k2=[], k1=['struct'], k3=['nostd']),
